@@ -191,9 +191,9 @@ VSread(int32 vkey,  /* IN: vdata key */
     if (NULL == (wi = (vsinstance_t *)HAatom_object(vkey)))
         HGOTO_ERROR(DFE_NOVS, FAIL);
 
-    /* get vdata itself and check it */
+    /* get vdata itself and check it.  Also check number of elements */
     vs = wi->vs;
-    if (vs == NULL)
+    if ((nelt < 0) || (vs == NULL))
         HGOTO_ERROR(DFE_ARGS, FAIL);
 
     /* check access id and number of vertices in vdata */
@@ -211,6 +211,10 @@ VSread(int32 vkey,  /* IN: vdata key */
     /* check interlace parameter */
     if (interlace != FULL_INTERLACE && interlace != NO_INTERLACE)
         HGOTO_ERROR(DFE_ARGS, FAIL);
+
+    /* nothing to read: a zero-length Hread would transfer the rest of the element */
+    if (nelt == 0)
+        HGOTO_DONE(0);
 
     /* read/write lists */
     w           = &(vs->wlist);
